@@ -13,11 +13,14 @@ ASSUMPTIONS = [
     "SDVRP: documented greedy 'deliver as much as possible' semantics",
     "PCTSP/SPCTSP: requirement read from the instance's prize_required (default 1.0)",
 ]
-REQUIRED_COUNTERS = ["episodes", "c01_episodes_checked"]
+REQUIRED_COUNTERS = ["episodes", "c01_episodes_checked", "torchrl_lookahead_probes", "reused_instance_objects", "reset_instance_key_checks"]
 MIN_NONTRIVIAL = {"quick": 5000, "thorough": 50000}
 WORKERS = {"quick": 12, "thorough": 16}
 BUDGET_S = {"quick": 400, "thorough": 3000}
 THOROUGH_ROUNDS = 3
+
+
+TORCHRL_ENVS = {"tsp", "atsp", "cvrp", "cvrptw", "sdvrp", "svrp", "op", "pctsp", "spctsp", "pdp", "mtsp", "mtvrp", "mdcpdp"}
 
 
 def cases(tier, seed):
@@ -53,6 +56,8 @@ def cases(tier, seed):
     for i, c_ in enumerate(out):
         if i % 4 == 3:
             c_["reuse"] = True
+        elif i % 4 == 1 and "cfg" in c_ and c_.get("kind", "routing") == "routing" and c_["cfg"]["env"] in TORCHRL_ENVS:
+            c_["torchrl"] = True  # TorchRL-mode env driven with look-ahead probes
     return out
 
 
